@@ -155,9 +155,66 @@ def damaged_read(sp, rig="L", api="scan", damage="absent"):
                 sp.require(False, f"{tag}: data file swapped with its sibling went undetected with checksum verification on", {"sig": f"{api}:swap:undetected"})
 
 
+def hint_read_error(sp, rig="L", api="scan", mode="kth"):
+    """The pointer itself cannot be read (every read / only the k-th read of it fails) while an UNCOMMITTED metadata file of a higher
+    version is on disk (left by a commit interrupted at its pointer write - it never became current).  A read must raise or answer
+    from the committed version; it must not fall back to 'the highest version on disk'."""
+    with Env(sp, rig=rig, clock="tick") as e:
+        w = e.world
+        t, files, targets = _scene(e)
+        expected = read_api(e.table(), api)
+        st = {"armed": True}
+
+        def interrupt(w_, label, info, a):
+            if st["armed"] and (info.get("path") or info.get("key") or "").endswith(HINT) and label in ("replace", "put>"):
+                st["armed"] = False
+                raise KeyboardInterrupt()
+        w.callbacks.append(interrupt)
+        try:
+            t.append_records([{"a": 50}])
+        except KeyboardInterrupt:
+            pass
+        w.callbacks.clear()
+        if rig == "S":
+            w.clock.advance(61_000)
+        tr = e.table()
+        assert read_api(tr, api) == expected
+        kth = sp.fresh_int("kth_hint_read", 0, 12) if mode == "kth" else None
+        seen = {"n": 0, "fired": 0}
+
+        def cb(w_, label, info, a):
+            p = info.get("path") or info.get("key") or ""
+            if not p.endswith(HINT) or label not in ("open_r", "get>", "read", "stat", "head>"):
+                return
+            hit = True if mode == "always" else bool(seen["n"] == kth)
+            seen["n"] += 1
+            if hit:
+                seen["fired"] += 1
+                raise OSError(errno.EIO, "injected pointer read error") if rig == "L" else cerr("InternalError", "GetObject", 500)
+        w.callbacks.append(cb)
+        raised = got = None
+        try:
+            got = read_api(tr, api)
+        except Exception as ex:  # noqa
+            raised = type(ex).__name__
+        w.callbacks.clear()
+        sp.note("outcome", raised or got)
+        sp.note("pointer_read_errors", seen["fired"])
+        sp.reach("ran")
+        if raised is None:
+            sp.require(got == expected, f"{rig}:{api}: the pointer could not be read ({mode}) and {api} answered {got} - the content of a version that "
+                       f"never became current - instead of raising or answering {expected}", {"sig": f"{api}:hint-read-error:uncommitted-version-surfaced"})
+
+
 def obligations(tier):
     obs = []
     T = 300 if tier == "quick" else 1200
+    for rig in ("L", "S"):
+        for api in (APIS if tier == "thorough" else ["scan", "row_count", "scan_batches"]):
+            for mode in ("kth", "always"):
+                obs.append(Ob(f"hint.{rig}.{api}.{mode}", "vf.props.c14:hint_read_error", {"rig": rig, "api": api, "mode": mode, "_must_reach": ["ran"]}, timeout=T,
+                              bounds=f"rig {rig}, API {api}: {'the k-th (symbolic)' if mode == 'kth' else 'every'} read of the pointer fails while an "
+                                     f"uncommitted higher-version metadata file is on disk", weight=2))
     rigs = ["L", "S"]
     for rig in rigs:
         for api in APIS:
